@@ -8,6 +8,7 @@ use vh::gen;
 use vh::*;
 
 mod cmds;
+mod p;
 
 pub struct Args {
     pub m: HashMap<String, String>,
